@@ -61,7 +61,7 @@ def main():
     # import everything a child needs *before* forking, execute nothing
     import pycaption  # noqa: F401
     import pycaption.dfxp  # noqa: F401
-    from . import ops, canon  # noqa: F401
+    from . import ops, canon, c20  # noqa: F401
     ops.corpus()
     signal.signal(signal.SIGCHLD, signal.SIG_IGN)  # auto-reap children
     srv = socket.socket(socket.AF_UNIX, socket.SOCK_STREAM)
